@@ -117,6 +117,13 @@ def gen(props, tier, rng):
             pool = []
             rules_all = []
             ids = rulegen.prefix_free_codes(rng, 12, maxlen=8)
+            htags = tags
+            if h % 3 == 2:
+                # rule IDs that are NOT prefix-free (some ID is a proper prefix of another, in either list order): several rules
+                # claim one SCHC packet, a fresh ruler answers with the first in context order — and so must a used one
+                for j in range(0, 12, 2):
+                    if len(ids[j]) > 1: ids[j + 1] = ids[j][:max(1, len(ids[j]) - rng.randrange(1, 3))]
+                htags = ' '.join(t for t in tags.split() if t != 'C11')
             for k in range(3):
                 data, pkt = rulegen.gen_stack(rng, stack)
                 pool.append('L:' + packets.bits_of(data))
@@ -151,7 +158,7 @@ def gen(props, tier, rng):
                         schcs.append('R:' + s0[:k])
                         schcs.append('L:' + s0[:max(1, len(s0) - len(s0) % 8 - 8 * rng.randrange(0, 2))][-max(1, rng.choice([4, 8, 12, 16])):])
                         schcs.append('R:' + '0' * rng.choice([1, 8, 16]))
-            yield f"hist manager {esc(stack)} {e_rules(rules_all)} {len(ops)} {' '.join(ops)} # {tags}"
+            yield f"hist manager {esc(stack)} {e_rules(rules_all)} {len(ops)} {' '.join(ops)} # {htags}"
     if props & {'C16'}:
         # long-lived managers built on a next-header-PREDICTING parser ('IPv6', 'IPv4', 'UDP'), fed packets whose upper
         # protocol changes from call to call: the parse of one packet must not depend on the packets seen before
